@@ -4,6 +4,7 @@ import (
 	"encoding/json"
 	"fmt"
 	"math"
+	"math/big"
 	"strconv"
 	"strings"
 	"unicode/utf16"
@@ -194,6 +195,26 @@ func SpellNumber(r *fw.Rand, f float64) string {
 	if f == math.Trunc(f) && a < 1e15 {
 		i := strconv.FormatInt(int64(f), 10)
 		cands = append(cands, i, i+".0", i+".000", i+"e0", i+"E+0", i+"0e-1")
+	}
+	// decimals with more digits than needed whose tail is perturbed: they are different texts that still round to f
+	if a != 0 && r.Chance(1, 3) {
+		long := strconv.FormatFloat(f, 'e', 24, 64) // d.dddd…e±xx with 25 significant digits (exact expansion, padded)
+		if i := strings.IndexByte(long, 'e'); i > 8 {
+			b := []byte(long)
+			pos := i - 1 - r.Intn(5)
+			if b[pos] >= '0' && b[pos] <= '9' {
+				b[pos] = '0' + (b[pos]-'0'+byte(1+r.Intn(8)))%10
+				cands = append(cands, string(b))
+			}
+		}
+		if f == math.Trunc(f) && a >= 1<<53 && a < 1e19 {
+			// integer literals next to f that are not exactly representable (e.g. 9007199254740993)
+			n := new(big.Int)
+			new(big.Float).SetFloat64(f).Int(n)
+			for _, d := range []int64{1, -1, 3, -3} {
+				cands = append(cands, new(big.Int).Add(n, big.NewInt(d)).String())
+			}
+		}
 	}
 	if f == 0 {
 		cands = append(cands, "0", "0.0", "0e5", "-0", "-0.0")
